@@ -96,37 +96,39 @@ type Interp struct {
 	decisions []int
 	spawn     func(prefix []int)
 
-	globals      map[*ssa.Global]*Object
-	nobj         int
-	nondets      []Nondet
-	reached      map[string]int
-	observes     []Observation
-	asserts      map[string]int // message -> times checked on this path
-	viols        []*Violation
-	notes        map[string]int
-	cuts         map[string]int
-	steps        int
-	depth        int
-	branches     int
-	ndSrc        int // nondeterminism sources consumed (map range order, time, ...)
-	funcsHit     map[*ssa.Function]bool
-	loopCnt      map[*ssa.BasicBlock]int
-	access       *accessLog
-	ovf          []*Term
-	unknownFeas  int
-	specDepth    int
-	specRoot     *ssa.BasicBlock
-	parRuns      []parRun
-	goThreads    []*ThreadTrace // go-statement mode: main thread + one trace per go statement
-	wgCount      map[string]int
-	pools        map[string][]Value
-	randReplay   []Nondet
-	randPos      int
-	model        Model
-	evalSkips    int
-	merges       int
-	mergeAborts  int
-	harnessState map[string]Value
+	globals       map[*ssa.Global]*Object
+	nobj          int
+	nondets       []Nondet
+	reached       map[string]int
+	observes      []Observation
+	asserts       map[string]int // message -> times checked on this path
+	viols         []*Violation
+	notes         map[string]int
+	cuts          map[string]int
+	steps         int
+	depth         int
+	branches      int
+	ndSrc         int // nondeterminism sources consumed (map range order, time, ...)
+	funcsHit      map[*ssa.Function]bool
+	loopCnt       map[*ssa.BasicBlock]int
+	access        *accessLog
+	ovf           []*Term
+	unknownFeas   int
+	specDepth     int
+	specRoot      *ssa.BasicBlock
+	parRuns       []parRun
+	goThreads     []*ThreadTrace // go-statement mode: main thread + one trace per go statement
+	wgCount       map[string]int
+	pools         map[string][]Value
+	randSameOn    bool
+	randSameFirst *Term
+	randReplay    []Nondet
+	randPos       int
+	model         Model
+	evalSkips     int
+	merges        int
+	mergeAborts   int
+	harnessState  map[string]Value
 }
 
 func (in *Interp) note(s string) { in.notes[s]++ }
